@@ -158,6 +158,9 @@ def cases(tier, seed):
                 for herm in (True, False):
                     for ro in ("asc", "desc", "lower-first"):
                         out.append(dict(grids=(grid,), k=k, pats=(pa,), herm=herm, ro=ro, kind="AdA"))
+                        if ro == "asc" and k == 1:
+                            # same product with object-dtype blocks holding Python complex numbers
+                            out.append(dict(grids=(grid,), k=k, pats=(pa,), herm=herm, ro=ro, kind="AdA", objdtype=True))
                         if grid[0] == grid[1] or True:
                             for pb in ("dense", "one0", "sparse"):
                                 out.append(dict(grids=(grid,), k=k, pats=(pa, pb), herm=herm, ro=ro, kind="AdBA"))
@@ -297,6 +300,20 @@ def run_case(case):
 
         models = [mAd, (lambda i, j, n: herm_B_value((i, j, *n), pats[1], k)), mA]
         mgrids = [(g[1], g[0]), (g[0], g[0]), g]
+    if case.get("objdtype"):
+        for f in facs:
+            inner = f.eval
+
+            def ev_obj(*index, inner=inner):
+                v = inner(*index)
+                if isinstance(v, np.ndarray):
+                    o = np.empty(v.shape, dtype=object)
+                    for pos_ in np.ndindex(v.shape):
+                        o[pos_] = complex(v[pos_])
+                    return o
+                return v
+
+            f.eval = ev_obj
     try:
         P = cauchy_dot_product(*facs, hermitian=case["herm"])
     except Exception as e:  # noqa: BLE001
@@ -367,7 +384,7 @@ def run_case(case):
                 if (v is zero) != (want_f is None) or (v is one) != isinstance(want_f, str):
                     V.append(f"cached element {list(idx_f)} of factor {t} changed its sentinel during product evaluation")
                 continue
-            if not np.array_equal(np.asarray(v), want_f):
+            if not np.array_equal(np.asarray(v, dtype=complex), want_f):
                 V.append(f"cached element {list(idx_f)} of factor {t} was modified by the product evaluation")
     desc = f"[{case['kind']} grids={grids} k={k} pats={pats} hermitian={case['herm']} order={case['ro']}]"
     return dict(violations=[dict(what=f"{w} {desc}", key=key) for w in V[:3]], nontrivial=nontrivial,
